@@ -29,6 +29,7 @@ var verifHarnesses = map[string]func(){
 	"VerifC18Drop":        VerifC18Drop,
 	"VerifSysHeal":        VerifSysHeal,
 	"VerifC05Reopen":      VerifC05Reopen,
+	"VerifC05Identity":    VerifC05Identity,
 	"VerifSysClose":       VerifSysClose,
 	"VerifSysTwoDBs":      VerifSysTwoDBs,
 	"VerifC03Instance":    VerifC03Instance,
